@@ -46,3 +46,148 @@ theorem code_injPressure_eq (L n : Nat) (p0 rate : Rat) :
           simp [List.getD_eq_getElem?_getD, List.getElem?_range hj', h0]
 
 end GeoVerif
+
+namespace GeoVerif
+open Py
+
+theorem pressLoop_length (p0 P0 dlt : Rat) (k t : Nat) (s : Bool) : (pressLoop p0 P0 dlt k t s).length = k := by
+  induction k generalizing t s with
+  | zero => simp [pressLoop]
+  | succ m ih =>
+    unfold pressLoop
+    by_cases hs : s = true
+    · simp [hs, ih]
+    · simp only [hs]
+      by_cases hv : P0 - dlt * (t : Rat) < p0 <;> simp [hv, ih]
+
+/-- one iteration of the transcribed loop body of `ReservoirPressurePredictor` (with the `break` flag) -/
+def rppStep (p0 dlt : Rat) (st : List Rat × Bool) (timestep : Int) : List Rat × Bool :=
+  let pressure := st.1
+  let brk_ := st.2
+  if brk_ = true then (pressure, brk_) else (
+    let pressure := Py.set pressure timestep ((Py.get pressure (0 : Int)) - (dlt * ((timestep : Int) : Rat)))
+    let st := if ((Py.get pressure timestep) < p0) then (
+        let pressure := Py.set pressure timestep p0
+        let brk_ := true
+        (pressure, brk_)) else (
+        (pressure, brk_))
+    let pressure := st.1
+    let brk_ := st.2
+    (pressure, brk_))
+
+/-- the loop from time step `t` on, started in any state whose untouched tail still holds the fill value `p0`: pointwise it is `pressLoop` -/
+theorem rpp_loop (p0 P0 dlt : Rat) (j : Nat) : ∀ (t : Nat) (xs : List Rat) (s : Bool), 1 ≤ t → t + j ≤ xs.length →
+    xs.getD 0 0 = P0 → (∀ i, t ≤ i → i < xs.length → xs.getD i 0 = p0) →
+    let res := ((List.range j).map (fun (k : Nat) => (t : Int) + (k : Int))).foldl (rppStep p0 dlt) (xs, s)
+    res.1.length = xs.length ∧
+    ∀ i, res.1.getD i 0 = if t ≤ i ∧ i < t + j then (pressLoop p0 P0 dlt j t s).getD (i - t) 0 else xs.getD i 0 := by
+  induction j with
+  | zero =>
+    intro t xs s _ _ _ _
+    simp
+  | succ m ih =>
+    intro t xs s ht hlen h0 htail
+    simp only [List.range_succ_eq_map, List.map_cons, List.map_map, List.foldl_cons, Nat.cast_zero, add_zero]
+    -- the state after the iteration at `t`
+    have hstep : ∃ (v : Rat) (s' : Bool), rppStep p0 dlt (xs, s) (t : Int) = (xs.set t v, s') ∧
+        pressLoop p0 P0 dlt (m + 1) t s = v :: pressLoop p0 P0 dlt m (t + 1) s' ∧ (s = true → v = p0) := by
+      have htl : t < xs.length := by omega
+      by_cases hs : s = true
+      · refine ⟨p0, true, ?_, ?_, fun _ => rfl⟩
+        · have : xs.set t p0 = xs := by
+            apply ext_getD _ _ (by simp)
+            intro i _
+            by_cases hi : t = i
+            · subst hi; rw [getD_set_self _ _ _ htl, htail t (le_refl _) htl]
+            · rw [getD_set_ne _ _ _ _ hi]
+          simp [rppStep, hs, this]
+        · subst hs; rw [pressLoop]; simp
+      · have hs' : s = false := by cases s <;> simp_all
+        subst hs'
+        have e0 : Py.get xs (0 : Int) = P0 := by
+          have := get_nat xs 0
+          simp only [Nat.cast_zero] at this
+          rw [this, h0]
+        by_cases hv : P0 - dlt * (t : Rat) < p0
+        · refine ⟨p0, true, ?_, ?_, fun h => by simp at h⟩
+          · simp [rppStep, set_nat, get_nat, e0, List.getElem?_set_self htl, hv, List.set_set]
+          · rw [pressLoop]; simp [hv]
+        · refine ⟨P0 - dlt * (t : Rat), false, ?_, ?_, fun h => by simp at h⟩
+          · simp [rppStep, set_nat, get_nat, e0, List.getElem?_set_self htl, hv]
+          · rw [pressLoop]; simp [hv]
+    obtain ⟨v, s', hst, hpl, _⟩ := hstep
+    rw [hst]
+    have hfun : ((fun (k : Nat) => (t : Int) + (k : Int)) ∘ Nat.succ) = (fun (k : Nat) => ((t + 1 : Nat) : Int) + (k : Int)) := by
+      funext k; simp only [Function.comp]; push_cast; ring
+    rw [hfun]
+    have htl : t < xs.length := by omega
+    obtain ⟨hl, hp⟩ := ih (t + 1) (xs.set t v) s' (by omega) (by simp; omega)
+      (by rw [getD_set_ne _ _ _ _ (by omega)]; exact h0)
+      (by intro i hi hil; rw [getD_set_ne _ _ _ _ (by omega)]; exact htail i (by omega) (by simpa using hil))
+    refine ⟨by simpa using hl, ?_⟩
+    intro i
+    rw [hp i, hpl]
+    by_cases hi : t = i
+    · subst hi
+      have : ¬ (t + 1 ≤ t ∧ t < t + 1 + m) := by omega
+      simp [this, List.getElem?_set_self htl]
+    · rw [getD_set_ne _ _ _ _ hi]
+      by_cases h1 : t + 1 ≤ i ∧ i < t + 1 + m
+      · have h2 : t ≤ i ∧ i < t + (m + 1) := by omega
+        have e : i - t = (i - (t + 1)) + 1 := by omega
+        simp [h1, h2, e]
+      · have h2 : ¬ (t ≤ i ∧ i < t + (m + 1)) := by omega
+        simp [h1, h2]
+
+theorem trunc_of_nonneg (x : Rat) (h : 0 ≤ x) : Py.trunc x = x.floor := by simp [Py.trunc, h]
+
+/-- the transcription of `ReservoirPressurePredictor` is the model `resPressure` (guard: `int(…)` truncates, the model floors — equal for the
+non-negative step counts that non-negative depletion rates give) -/
+theorem code_resPressure_eq (L n : Nat) (p0 pct rate : Rat) (hnn : 0 ≤ (100 / rate) * (n : Rat)) :
+    Code.ReservoirPressurePredictor (L : Int) (n : Int) p0 pct rate = resPressure L n p0 pct rate := by
+  unfold Code.ReservoirPressurePredictor resPressure
+  have em : (L : Int) * (n : Int) = ((L * n : Nat) : Int) := by push_cast; ring
+  simp only [em, replicate_nat, Int.cast_natCast, trunc_of_nonneg _ hnn, Int.cast_ofNat]
+  generalize L * n = m
+  by_cases hp : pct = 100
+  · simp [hp]
+  · simp only [hp, if_false]
+    cases m with
+    | zero => simp [Py.range, Py.set]
+    | succ k =>
+      simp only
+      have e0 : Py.set (List.replicate (k + 1) p0) (0 : Int) (p0 * (pct / 100)) = (List.replicate (k + 1) p0).set 0 (p0 * (pct / 100)) := by
+        have := set_nat (List.replicate (k + 1) p0) 0 (p0 * (pct / 100))
+        simpa using this
+      have eg : Py.get ((List.replicate (k + 1) p0).set 0 (p0 * (pct / 100))) (0 : Int) = p0 * (pct / 100) := by
+        have := get_nat ((List.replicate (k + 1) p0).set 0 (p0 * (pct / 100))) 0
+        simp only [Nat.cast_zero] at this
+        rw [this, getD_set_self _ _ _ (by simp)]
+      rw [e0, eg]
+      have er : Py.range (1 : Int) ((k + 1 : Nat) : Int) = (List.range k).map (fun (j : Nat) => ((1 : Nat) : Int) + (j : Int)) := by
+        have : (((k + 1 : Nat) : Int) - 1).toNat = k := by omega
+        simp [Py.range, this]
+      rw [er]
+      obtain ⟨hl, hpt⟩ := rpp_loop p0 (p0 * (pct / 100)) ((p0 * (pct / 100) - p0) / (((100 / rate * (n : Rat)).floor : Int) : Rat)) k 1
+        ((List.replicate (k + 1) p0).set 0 (p0 * (pct / 100))) false (le_refl _) (by simp; omega)
+        (getD_set_self _ _ _ (by simp))
+        (by intro i hi hil; rw [getD_set_ne _ _ _ _ (by omega), getD_replicate]; simp at hil; simp [hil])
+      change (List.foldl (rppStep p0 ((p0 * (pct / 100) - p0) / (((100 / rate * (n : Rat)).floor : Int) : Rat))) _ _).1 = _
+      apply ext_getD
+      · rw [hl]; simp [pressLoop_length]
+      · intro i hi
+        rw [hpt i]
+        by_cases h1 : 1 ≤ i ∧ i < 1 + k
+        · have e : i = (i - 1) + 1 := by omega
+          rw [if_pos h1]
+          conv_rhs => rw [e]
+          simp
+        · rw [if_neg h1]
+          rw [hl] at hi
+          simp only [List.length_set, List.length_replicate] at hi
+          have : i = 0 := by omega
+          subst this
+          rw [getD_set_self _ _ _ (by simp)]
+          simp
+
+end GeoVerif
